@@ -244,6 +244,8 @@ class Exec:
             return [p2]
         if isinstance(s, ast.Assert):
             return [p]
+        if isinstance(s, (ast.Global, ast.Nonlocal)):
+            return [p]
         raise Unsupported("statement %s" % type(s).__name__, s)
 
     def do_raise(self, s, p):
@@ -260,8 +262,8 @@ class Exec:
         return []
 
     def trystmt(self, s, p):
-        if s.finalbody or s.orelse:
-            raise Unsupported("try/finally or try/else", s)
+        if s.finalbody:
+            raise Unsupported("try/finally", s)
         caught = []
         self.exc_sinks.append(caught)
         self.try_depth += 1
@@ -270,6 +272,8 @@ class Exec:
         finally:
             self.try_depth -= 1
             self.exc_sinks.pop()
+        if s.orelse:
+            live = self.block(s.orelse, live)           # runs only when the body raised nothing; its exceptions are not caught here
         for o in caught:
             if o.kind != "raise":
                 self.exc_sinks[-1].append(o)
@@ -439,6 +443,10 @@ class Exec:
         return res
 
     def delete(self, tgt, p):
+        if isinstance(tgt, ast.Name) and tgt.id in p.env:
+            q = p.copy()
+            del q.env[tgt.id]
+            return [q]
         if not isinstance(tgt, ast.Subscript):
             raise Unsupported("del of non-subscript", tgt)
         base = self.loc(tgt.value, p)
@@ -545,9 +553,28 @@ class Exec:
         if isinstance(e, (ast.ListComp, ast.GeneratorExp, ast.SetComp, ast.DictComp)):
             return self.comprehension(e, p)
         if isinstance(e, ast.JoinedStr):
-            raise Unsupported("f-string", e)
+            # f"..{a!r:>4}.." == "..{!r:>4}..".format(a): the same term as the str.format spelling
+            fmt, args = "", []
+            for part in e.values:
+                if isinstance(part, ast.Constant):
+                    fmt += str(part.value).replace("{", "{{").replace("}", "}}")
+                elif isinstance(part, ast.FormattedValue):
+                    conv = {-1: "", 115: "!s", 114: "!r", 97: "!a"}.get(part.conversion, "")
+                    spec = ""
+                    if part.format_spec is not None:
+                        if not all(isinstance(x, ast.Constant) for x in part.format_spec.values):
+                            raise Unsupported("computed format spec in f-string", e)
+                        spec = ":" + "".join(str(x.value) for x in part.format_spec.values)
+                    fmt += "{" + conv + spec + "}"
+                    args.append(part.value)
+                else:
+                    raise Unsupported("f-string part", e)
+            return [(app("py_format%d" % len(vs), asV(PyC(fmt)), *[asV(v) for v in vs]), p2) for vs, p2 in self.evlist(args, p)]
         if isinstance(e, ast.Lambda):
-            raise Unsupported("lambda", e)
+            fdef = ast.FunctionDef(name="<lambda>", args=e.args, body=[ast.Return(value=e.body)], decorator_list=[], returns=None, type_comment=None, type_params=[])
+            ast.copy_location(fdef, e)
+            ast.fix_missing_locations(fdef)
+            return [(Closure(fdef, None), p)]
         raise Unsupported("expression %s" % type(e).__name__, e)
 
     def evlist(self, exprs, p):
@@ -596,7 +623,13 @@ class Exec:
 
     def compare(self, e, p):
         if len(e.ops) != 1:
-            raise Unsupported("chained comparison", e)
+            # a < b < c  ==  (a < b) and (b < c)   (middle operands are evaluated once; they are pure here)
+            parts = []
+            left = e.left
+            for op_, right in zip(e.ops, e.comparators):
+                parts.append(ast.copy_location(ast.Compare(left=left, ops=[op_], comparators=[right]), e))
+                left = right
+            return self.ev(ast.copy_location(ast.BoolOp(op=ast.And(), values=parts), e), p)
         op = e.ops[0]
         res = []
         for (l, r), p2 in self.evlist([e.left, e.comparators[0]], p):
